@@ -123,6 +123,9 @@ def phase1(case):
     from hl7apy.factories import datatype_factory
     k = case['kind']
     ec = explicit_ec(case)
+    if case.get('_implicit'):
+        # the same call with version and level left to the defaults (which the caller has set to the case's own values)
+        case = dict(case, v=None, level=None)
     if k == 'parse_message':
         return P.parse_message(case['text'], validation_level=case['level'], find_groups=case['find_groups'])
     if k == 'parse_segment':
@@ -144,6 +147,11 @@ def phase1(case):
     if k == 'unknown_component':
         c = core.Component(datatype=case['dt'], version=case['v'], validation_level=case['level'])
         return c
+    if k == 'unknown_field':
+        return core.Field(datatype=case['dt'], version=case['v'], validation_level=case['level']) if case['dt'] else \
+            core.Field(version=case['v'], validation_level=case['level'])
+    if k == 'named_component':
+        return core.Component(case['name'], datatype=case['dt'], version=case['v'], validation_level=case['level'])
     raise ValueError(k)
 
 
@@ -204,6 +212,8 @@ def phase2(case, state):
         sc = c.add_subcomponent(case['dt'])
         sc.value = 'zz'
         return {'er7': c.to_er7(R.full(R.DEFAULT_EC)), 'attrs': _tree_attrs(c)}
+    if k in ('unknown_field', 'named_component'):
+        return {'er7': state.to_er7(R.full(R.DEFAULT_EC)), 'attrs': _tree_attrs(state), 'datatype': state.datatype}
     raise ValueError(k)
 
 
@@ -235,6 +245,15 @@ def check(case, acc=None):
     if allb != base:
         out.append(('C17-result-depends-on-defaults:%s:%s' % (case['kind'], _dim(base, allb)),
                     '%s under defaults %r\nlibrary defaults: %s\nthat config:      %s' % (what[:300], cfg, str(base)[:500], str(allb)[:500])))
+    if not out and case['kind'] != 'message_model' and case.get('v') and case.get('level'):
+        # the dual relation: leaving version and level to defaults that hold the very same values is the same call
+        own = {'v': case['v'], 'level': case['level'], 'custom_ec': False}
+        impl = outcome(dict(case, _implicit=True), own, own, damaged)
+        if impl != base:
+            out.append(('C17-default-is-not-applied-like-the-explicit-value:%s:%s' % (case['kind'], _dim(base, impl)),
+                        '%s\nexplicit arguments:                         %s\nsame values as defaults, arguments omitted: %s' % (what[:300], str(base)[:400], str(impl)[:400])))
+    if out:
+        pass
     elif mixed != base:
         out.append(('C17-existing-elements-affected-by-default-change:%s:%s' % (case['kind'], _dim(base, mixed)),
                     '%s built under library defaults, then defaults switched to %r\nstay:   %s\nswitch: %s' % (
@@ -279,7 +298,7 @@ def configs(draw):
 @st.composite
 def cases(draw, cells, mcells):
     k = draw(st.sampled_from(['parse_message', 'parse_message', 'parse_segment', 'parse_segment', 'parse_field', 'parse_component',
-                              'message_model', 'factory', 'factory', 'elements', 'unknown_component']))
+                              'message_model', 'factory', 'factory', 'elements', 'unknown_component', 'unknown_field', 'named_component']))
     cfg = draw(configs())
     level = draw(st.sampled_from([1, 2]))
     if k == 'parse_message':
@@ -327,6 +346,17 @@ def cases(draw, cells, mcells):
         dt0 = lit.first_leaf_dt(T, v, ref)
         value = draw(st.one_of(st.sampled_from([lit.valid(dt0, 0), lit.valid(dt0, 1)]), st.sampled_from(['abc', 'x1', BIG, '12', '2020'])))
         case = {'kind': k, 'v': v, 'seg': s, 'fname': fname, 'value': value, 'level': level}
+    elif k == 'unknown_field':
+        v = draw(st.sampled_from(T.VERSIONS))
+        dt = draw(st.sampled_from([None, None, 'ST', 'varies'] + sorted(T.complex_datatypes(v))[:4]))
+        case = {'kind': k, 'v': v, 'dt': dt, 'level': level}
+    elif k == 'named_component':
+        v = draw(st.sampled_from(T.VERSIONS))
+        cdt = draw(st.sampled_from(sorted(T.complex_datatypes(v))))
+        rows = T.dt_children(v, cdt)
+        name = draw(st.sampled_from(rows))[0]
+        dt = draw(st.sampled_from([None, 'ST', 'NM', 'varies'] + sorted(T.complex_datatypes(v))[:3]))
+        case = {'kind': k, 'v': v, 'name': name, 'dt': dt, 'level': level}
     else:
         v = draw(st.sampled_from(T.VERSIONS))
         dt = draw(st.sampled_from(sorted(T.lib(v).BASE_DATATYPES) + sorted(T.complex_datatypes(v))[:6]))
